@@ -1,7 +1,7 @@
 """C08 fault injection outside the retry-loop model: raising attempt hooks, classifiers, result classifiers and strategies.
 
 stdin : JSON list of scenarios
-  {"async": bool, "mode": "call"|"execute", "retry": bool, "max_attempts": n, "ops": [["V"] | ["V", klass] | ["R", klass] ...],
+  {"async": bool, "mode": "call"|"execute", "retry": bool, "max_attempts": n, "ops": [["V"] | ["V", klass] | ["R", klass] | ["X", i] (exception with the i-th set of odd status/code attributes) ...],
    "fault": {"where": "attempt_start"|"attempt_end"|"classifier"|"result_classifier"|"strategy"|"before_sleep"|"on_metric"|"on_log",
              "nth": k (the k-th invocation of that callback raises, 1-based), "exc": "value"|"runtime"|"keyboard"|"cancelled"|"genexit"},
    "pre": "closed"|"half_open"}     # half_open: the call under test is the probe after a recovery timeout
@@ -29,6 +29,10 @@ STATUS_OF = {"AUTH": 401, "PERMISSION": 403, "PERMANENT": 404, "CONCURRENCY": 40
 
 class Scripted(Exception):
     pass
+
+
+ODD_ATTRS = [{"code": "ECONNRESET"}, {"status": "503"}, {"status": " 42 "}, {"status": None, "code": "x"}, {"status": 3.5}, {"code": b"500"},
+             {"status": [500]}, {"status": "", "code": "٥٠٣"}, {"status_code": "abc"}, {"code": float("nan")}, {"status": object()}]
 
 
 class Injected(Exception):
@@ -87,6 +91,13 @@ def run(sc):
         if o[0] == "V":
             return ("value", i, o[1] if len(o) > 1 else None)
         e = Scripted("scripted failure")
+        if o[0] == "X":
+            # an exception carrying status / code attributes of unusual types: whatever default_classifier makes of them (C19), the
+            # call must still settle
+            for k, v in ODD_ATTRS[o[1]].items():
+                setattr(e, k, v)
+            e.klass = "UNKNOWN"
+            raise e
         e.klass = o[1]
         if not sc["retry"] and o[1] in STATUS_OF:
             e.status = STATUS_OF[o[1]]
